@@ -450,6 +450,10 @@ class ExecBase:
         if isinstance(op, (ast.In, ast.NotIn)):
             return self.contains(st, ctx, a, b, isinstance(op, ast.NotIn), k, node)
         name = ops.CMP_NAMES[type(op)]
+        if isinstance(a, VFunc) and isinstance(b, VFunc) and a.kind in ("class", "typeof", "builtin") and b.kind in ("class", "typeof", "builtin") \
+                and name in ("eq", "ne"):
+            same = a.name == b.name            # class / type objects compare by identity
+            return k(st, VBool(same if name == "eq" else not same))
         # options: == / != with None are total; orderings unwrap
         if isinstance(a, VOpt) or isinstance(b, VOpt):
             if name in ("eq", "ne") and (isinstance(a, (VNone, VOpt)) and isinstance(b, (VNone, VOpt))) and \
